@@ -488,3 +488,86 @@ Lemma op_header_kept ins o :
   let o' := strip_op (apply_op ins o) in
   o_vars o' = o_vars o /\ o_dirs o' = o_dirs o /\ o_name o' = o_name o /\ o_kind o' = o_kind o.
 Proof. simpl. auto. Qed.
+
+(* ---------------------------------------------------------------- fragments of the sent document *)
+Definition exact_guard (fuel : nat) (frs : list fdef) (o : opdef) (mix unp : list string) : bool :=
+  covered frs o mix unp && recorded_reachable fuel frs o mix unp.
+
+Lemma doc_fragment_names_shape o' (defs : list fdef) (g : fdef -> fdef) :
+  (forall f, fd_name (g f) = fd_name f) ->
+  doc_fragment_names (XOp o' :: map (fun f => XFrag (g f)) defs) = map fd_name defs.
+Proof.
+  intro Hg. unfold doc_fragment_names. cbn [flat_map app].
+  induction defs as [|f r IH]; cbn [map flat_map app]; [reflexivity|]. rewrite Hg, IH. reflexivity.
+Qed.
+
+Theorem fragments_exact fuel C Sc frs ins o doc ins' mix unp :
+  op_document fuel C Sc frs ins o = Ok (doc, ins') ->
+  op_sets fuel C Sc frs ins o = Ok (mix, unp) ->
+  exact_guard fuel frs o mix unp = true ->
+  (forall n, In n (doc_fragment_names doc) <-> reach frs (sel_spreads (o_sel o)) n)
+  /\ NoDup (doc_fragment_names doc).
+Proof.
+  intros Hd Hs Hg. unfold op_sets in Hs. unfold op_document in Hd.
+  destruct (String.eqb (o_name o) ""); [discriminate|].
+  destruct (root_type_name Sc (o_kind o)) as [tn|]; cbn [bind] in *; [|discriminate].
+  destruct (ptd fuel C Sc frs (map proj_frag frs) (fresh ins) (pascal_s (o_name o)) tn None (o_sel o) false)
+    as [st|]; cbn [bind] in *; [|discriminate].
+  inversion Hs; subst; clear Hs.
+  destruct (related fuel frs (ps_mix st) (ps_unp st)) as [rel|] eqn:Er; [|discriminate].
+  destruct (lookup_all frs rel) as [defs|] eqn:El; [|discriminate].
+  inversion Hd; subst; clear Hd.
+  rewrite (doc_fragment_names_shape _ defs (fun f => strip_fd (apply_fd (ps_ins st) f))) by reflexivity.
+  apply lookup_all_In in El as [_ ->].
+  unfold exact_guard in Hg. apply andb_true_iff in Hg as [Hc Hr].
+  eapply related_exact; eassumption.
+Qed.
+
+(* ---------------------------------------------------------------- witnesses *)
+Definition fld (id : nat) (n : string) (sub : option (list fsel)) : fsel := FField id None n [] [] sub.
+
+(* interface Node { id: ID! }  interface Animal { name: String }
+   type Dog implements Node & Animal { id: ID! name: String }  type Query { animal: Animal } *)
+Definition W_schema : schema :=
+  {| s_types := [("Query", DObject [] [("animal", TNamed "Animal"); ("a", TNamed "A")]);
+                 ("Node", DInterface [] [("id", TNonNull (TNamed "ID"))]);
+                 ("Animal", DInterface [] [("name", TNamed "String")]);
+                 ("Dog", DObject ["Node"; "Animal"] [("id", TNonNull (TNamed "ID")); ("name", TNamed "String")]);
+                 ("A", DObject [] [("x", TNamed "Int")]);
+                 ("ID", DScalar); ("String", DScalar); ("Int", DScalar)];
+     s_query := Some "Query"; s_mutation := None; s_subscription := None |}.
+
+Definition W_cfg : cfg := {| cf_snake := true; cf_scalars := [] |}.
+
+(* query Q { animal { name ...NF } }   fragment NF on Node { id } *)
+Definition W_drop_op : opdef :=
+  {| o_kind := "query"; o_name := "Q"; o_vars := []; o_dirs := [];
+     o_sel := [fld 1 "animal" (Some [fld 2 "name" None; FSpread "NF" []])] |}.
+Definition W_drop_frs : list fdef :=
+  [{| fd_name := "NF"; fd_on := "Node"; fd_dirs := []; fd_sel := [fld 3 "id" None] |}].
+
+(* query Q { a { ...F } }   fragment F on A @mixin(from: ".m", import: "M") { x } *)
+Definition W_mixin_dir : directive :=
+  {| d_name := "mixin"; d_args := [("from", VStr false ".m"); ("import", VStr false "M")] |}.
+Definition W_mixin_op : opdef :=
+  {| o_kind := "query"; o_name := "Q"; o_vars := []; o_dirs := [];
+     o_sel := [fld 1 "a" (Some [FSpread "F" []])] |}.
+Definition W_mixin_frs : list fdef :=
+  [{| fd_name := "F"; fd_on := "A"; fd_dirs := [W_mixin_dir]; fd_sel := [fld 2 "x" None] |}].
+
+Definition doc_of (r : res (list ddef * list nat)) : list ddef :=
+  match r with Ok (d, _) => d | Err _ => [] end.
+
+Lemma W_drop_reach : reach W_drop_frs (sel_spreads (o_sel W_drop_op)) "NF".
+Proof. apply reach_direct. simpl. left. reflexivity. Qed.
+
+Lemma W_drop_doc : exists doc ins', op_document 50 W_cfg W_schema W_drop_frs [] W_drop_op = Ok (doc, ins')
+                                    /\ doc_fragment_names doc = [].
+Proof. eexists. eexists. split; vm_compute; reflexivity. Qed.
+
+Lemma W_mixin_doc : exists doc ins' f,
+  op_document 50 W_cfg W_schema W_mixin_frs [] W_mixin_op = Ok (doc, ins') /\
+  In (XFrag f) doc /\ existsb (fun d => String.eqb (d_name d) "mixin") (fd_dirs f) = true.
+Proof.
+  eexists. eexists. eexists. split; [vm_compute; reflexivity|]. split; [right; left; reflexivity | reflexivity].
+Qed.
